@@ -30,11 +30,18 @@ struct MonHooks : ExecHooks {
     unsigned long seen_double = 0, seen_foreign = 0, seen_nonzero = 0, seen_failed = 0;
     bool check_live = true;
 
-    void reset(int align_mode = 0) { skv_mon_align_mode(align_mode); skv_mon_reset(); seen_double = seen_foreign = seen_nonzero = seen_failed = 0; cleanups_of_live = rich_cleanups = 0; max_nonzero_before = 0; block_sizes.clear(); }
+    void reset(int align_mode = 0) { held.clear(); live_before = 0; skv_mon_align_mode(align_mode); skv_mon_reset(); seen_double = seen_foreign = seen_nonzero = seen_failed = 0; cleanups_of_live = rich_cleanups = 0; max_nonzero_before = 0; block_sizes.clear(); }
 
+    // blocks the library holds on behalf of each object: whatever it allocates during a call on object s is charged to s,
+    // whatever it frees is credited.  How many blocks an object takes, and when it takes them, is the implementation's
+    // business; that cleanup gives back all of them - and that nothing is held for an object that is not initialised - is
+    // the property.
+    std::map<long long, long> held;
+    int live_before = 0;
     void call_pre(const Op &op) override {
         long long k = op.geti("failat", 0);
         if (k > 0) skv_mon_fail_at((unsigned long)k);
+        live_before = skv_mon_live();
     }
     void call_post(const Op &, Rec &) override { skv_mon_fail_at(0); }
 
@@ -50,9 +57,21 @@ struct MonHooks : ExecHooks {
             seen_nonzero = skv_mon_nonzero();
         }
         if (skv_mon_failed() != seen_failed) { r.pub += ";inj"; seen_failed = skv_mon_failed(); }
-        if (check_live && skv_mon_live() != r.live_slots)
-            r.err += "live-blocks=" + std::to_string(skv_mon_live()) + "-but-live-objects=" + std::to_string(r.live_slots) + ";";
-        (void)op;
+        if (check_live) {
+            long long sl = op.geti("s", -1);
+            long delta = (long)skv_mon_live() - (long)live_before;
+            if (op.name.rfind("new.", 0) != 0) {
+                if (sl >= 0) held[sl] += delta;
+                else if (delta != 0) r.err += "a-call-on-a-NULL-object-changed-the-number-of-allocated-blocks;";
+                std::string fn = op.name.substr(op.name.find('.') + 1);
+                bool dead_after = fn == "cleanup" || (fn == "init" && r.ret != 1);
+                if (sl >= 0 && held[sl] < 0) r.err += "more-blocks-released-than-were-allocated-on-behalf-of-this-object;";
+                else if (sl >= 0 && dead_after && held[sl] != 0)
+                    r.err += std::string(fn == "cleanup" ? "cleanup" : "failed-init") + "-left-" + std::to_string(held[sl]) + "-block(s)-allocated-on-behalf-of-this-object;";
+                else if (r.live_slots == 0 && skv_mon_live() != 0)
+                    r.err += "no-object-is-initialised-but-" + std::to_string(skv_mon_live()) + "-block(s)-are-still-allocated;";
+            }
+        }
     }
 };
 
